@@ -1117,6 +1117,47 @@ func c04R9(p *core.Program, r *core.Report) {
 			r.OK("R9", key, p.Pos(cs.Pos()), "under hasDefault() of the same object")
 			continue
 		}
+		// hasDefault() written out: the result is compared with the object itself and used only where they differ
+		if call, ok := cs.Instr.(*ssa.Call); ok && call.Referrers() != nil {
+			isSelf := func(v ssa.Value) bool {
+				v = core.StripConv(v)
+				if mi, ok := v.(*ssa.MakeInterface); ok {
+					v = mi.X
+				}
+				return v == recv || canon(v) == canon(recv)
+			}
+			differs := func(b *ssa.BasicBlock) bool {
+				for _, ce := range core.ControllingConds(b) {
+					bo, ok := ce.Cond.(*ssa.BinOp)
+					if !ok || (bo.Op != token.NEQ && bo.Op != token.EQL) {
+						continue
+					}
+					if (bo.X == ssa.Value(call) && isSelf(bo.Y)) || (bo.Y == ssa.Value(call) && isSelf(bo.X)) {
+						if (bo.Op == token.NEQ) == ce.Taken {
+							return true
+						}
+					}
+				}
+				return false
+			}
+			allOK, nUse := true, 0
+			for _, ref := range *call.Referrers() {
+				if bo, ok := ref.(*ssa.BinOp); ok && (bo.Op == token.NEQ || bo.Op == token.EQL) {
+					continue
+				}
+				if _, ok := ref.(*ssa.DebugRef); ok {
+					continue
+				}
+				nUse++
+				if !differs(ref.Block()) {
+					allOK = false
+				}
+			}
+			if allOK && nUse > 0 {
+				r.OK("R9", key, p.Pos(cs.Pos()), "the result is used only where it differs from the object itself (hasDefault written out)")
+				continue
+			}
+		}
 		if reason, ok := c04DefaultAllowed[key]; ok {
 			r.OK("R9", key, p.Pos(cs.Pos()), "listed: "+reason)
 			continue
